@@ -328,19 +328,7 @@ pub fn file_level_docs() -> Vec<(Document, String)> {
     // one offset (its own) that needs one more byte than every other
     for delta in [0usize, 1, 2, 40, 200] {
         for big_last in [true, false] {
-            let mut doc = Document::with_version("1.5");
-            doc.objects.insert((1, 0), Object::Dictionary(rt::dict(vec![(b"Type", Object::Name(b"Catalog".to_vec()))])));
-            let filler = 65536 - 150 - delta;
-            if big_last {
-                doc.objects.insert((2, 0), Object::Integer(2));
-                doc.objects.insert((3, 0), Object::Stream(Stream::new(Dictionary::new(), vec![b'z'; filler])));
-            } else {
-                doc.objects.insert((2, 0), Object::Stream(Stream::new(Dictionary::new(), vec![b'z'; filler])));
-                doc.objects.insert((3, 0), Object::String(vec![b's'; 100 + delta], StringFormat::Literal));
-            }
-            doc.max_id = 3;
-            doc.trailer.set("Root", Object::Reference((1, 0)));
-            docs.push((doc, format!("64KiB boundary delta={} big_last={}", delta, big_last)));
+            docs.push((boundary_doc(16, delta, big_last), format!("64KiB boundary delta={} big_last={}", delta, big_last)));
         }
     }
     // empty document, and a document with only max_id
@@ -349,6 +337,24 @@ pub fn file_level_docs() -> Vec<(Document, String)> {
     d.max_id = 9;
     docs.push((d, "no objects, max_id 9".into()));
     docs
+}
+
+/// A three-object document whose saved file crosses the 2^log2 byte boundary inside (big_last) or
+/// just before (!big_last) its last object.
+pub fn boundary_doc(log2: u32, delta: usize, big_last: bool) -> Document {
+    let mut doc = Document::with_version("1.5");
+    doc.objects.insert((1, 0), Object::Dictionary(rt::dict(vec![(b"Type", Object::Name(b"Catalog".to_vec()))])));
+    let filler = (1usize << log2) - 150 - delta;
+    if big_last {
+        doc.objects.insert((2, 0), Object::Integer(2));
+        doc.objects.insert((3, 0), Object::Stream(Stream::new(Dictionary::new(), vec![b'z'; filler])));
+    } else {
+        doc.objects.insert((2, 0), Object::Stream(Stream::new(Dictionary::new(), vec![b'z'; filler])));
+        doc.objects.insert((3, 0), Object::String(vec![b's'; 100 + delta], StringFormat::Literal));
+    }
+    doc.max_id = 3;
+    doc.trailer.set("Root", Object::Reference((1, 0)));
+    doc
 }
 
 pub fn start_docs() -> Vec<Document> {
